@@ -319,9 +319,28 @@ class SArr(SArrBase):
     def __isub__(self, o): return self._inplace(o, lambda a, b: a - b)
     def __imul__(self, o): return self._inplace(o, lambda a, b: a * b)
 
+    def materialize(self):
+        """object ndarray when every dimension is concrete"""
+        import numpy as _np
+        import itertools as _it
+        sh = self.shape
+        if any(isinstance(d, SV) for d in sh):
+            raise Undecided("matrix product / reduction of symbolic-shape arrays")
+        out = _np.empty(sh, dtype=object)
+        rd = self.reader()
+        for idx in _it.product(*[range(d) for d in sh]):
+            out[idx] = rd(tuple(z3.IntVal(i) for i in idx))
+        return out
+
     def __matmul__(self, o):
-        raise Undecided("matrix product of symbolic-shape arrays")
-    __rmatmul__ = __matmul__
+        a = self.materialize()
+        b = o.materialize() if isinstance(o, SArr) else o
+        return a @ b
+
+    def __rmatmul__(self, o):
+        b = self.materialize()
+        a = o.materialize() if isinstance(o, SArr) else o
+        return a @ b
 
     def conj(self):
         return self.map(lambda a: a.conjugate() if hasattr(a, "conjugate") else a)
@@ -387,6 +406,21 @@ class SArr(SArrBase):
 
     # ---- fancy indexing (outer product of index vectors; 1-D index list)
     def _fancy_get(self, key):
+        import numpy as _np
+        # numpy object/int arrays of shape (k,1) / (1,k) / (k,) as index vectors
+        def conv(k):
+            if isinstance(k, _np.ndarray):
+                if k.ndim == 2 and k.shape[1] == 1:
+                    return IndexVec(as_slist_any(list(k[:, 0])), "col")
+                if k.ndim == 2 and k.shape[0] == 1:
+                    return IndexVec(as_slist_any(list(k[0, :])), "row")
+                if k.ndim == 1:
+                    return list(k)
+            return k
+        if isinstance(key, tuple):
+            key = tuple(conv(k) for k in key)
+        else:
+            key = conv(key)
         if isinstance(key, tuple) and len(key) == 2 and isinstance(key[0], IndexVec) and isinstance(key[1], IndexVec) \
                 and key[0].kind == "col" and key[1].kind == "row" and self.ndim == 2:
             r, c = key[0].vec_reader(), key[1].vec_reader()
@@ -437,6 +471,11 @@ class IndexVec:
         if isinstance(self.base, SArr):
             return self.base.shape[0]
         return _dim(self.base.length())
+
+
+def as_slist_any(vals):
+    from .sym import as_slist
+    return as_slist(vals, "int")
 
 
 def _index_vector(key):
